@@ -19,7 +19,13 @@
  * are covered.
  * unwind=5: the only loops are highest_bit (<= 3 doublings for 3-bit keys) and the iteration (<= 3 steps); the
  * recursion of insert / merge / compare / remove / transform is at most 2 deep on <= 2 bindings, node::lookup / find
- * do not nest at all (--unwindset); all unwinding assertions are PROVED, so these bounds are not assumptions. */
+ * do not nest at all (--unwindset); all unwinding assertions are PROVED, so these bounds are not assumptions.
+ * The exact recursion bounds matter for cost, not for soundness: a pointer that may be null or may point to objects
+ * of two dynamic types makes cbmc's symbolic execution follow every virtual call into every override, so each extra
+ * level of unwinding multiplies the formula (measured: lookup after 2 inserts, unwind 5 everywhere: 10M variables,
+ * 4 minutes; with the bounds below: 2.5M, 35 s).
+ * Three further families follow the symbolic ones: `deep_*` (concrete key sets of up to 4 keys, symbolic values: nested
+ * nodes), and at the end the UNBOUNDED leaf-level contracts. */
 #include "spec.h"
 #define PTN(x) _ZN4ikos13patricia_treeI1K1VSt8equal_toIS2_EE##x
 #define PTK(x) _ZNK4ikos13patricia_treeI1K1VSt8equal_toIS2_EE##x
@@ -138,7 +144,7 @@ void h_transform(void){ GIN(g_a, NA_LO, NA_HI); GHOSTG(uint64_t, g_q);
   OBSERVE_X(&t, "transform"); REACH; }
 /* iteration begin()..end(): every binding exactly once, with its value, nothing else, size() steps */
 /* BOUNDED */
-//@check id=iterate fn=_ZNK4ikos13patricia_treeI1K1VSt8equal_toIS2_EE6lookupERKS1_ props=C19 tag=lookup unwind=5 backends=minisat,kissat first_timeout=600 timeout=900 timeout_thorough=2400 defs=SCN=SC_BUILD vary=NA:0-1 vary_thorough=NA:0-2 bounded="<=2 bindings, keys < 8" cbmc=--unwindset,_ZNK4ikos19patricia_trees_impl4nodeI1K1VSt8equal_toIS3_EE6lookupERKS2_:1,--unwindset,_ZNK4ikos19patricia_trees_impl4nodeI1K1VSt8equal_toIS3_EE4findERKS2_:1,--unwindset,_ZN4ikos19patricia_trees_impl4treeI1K1VSt8equal_toIS3_EE6insertESt10shared_ptrIS6_ERKS2_RKS3_RNS_9binary_opIS2_S3_EEb:2,--unwindset,_ZN4ikos19patricia_trees_impl4treeI1K1VSt8equal_toIS3_EE5mergeESt10shared_ptrIS6_ES8_RNS_9binary_opIS2_S3_EEb:2,--unwindset,_ZN4ikos19patricia_trees_impl4treeI1K1VSt8equal_toIS3_EE7compareESt10shared_ptrIS6_ES8_RNS_13partial_orderIS3_EEb:2,--unwindset,_ZN4ikos19patricia_trees_impl4treeI1K1VSt8equal_toIS3_EE6removeESt10shared_ptrIS6_ERKS2_:2,--unwindset,_ZN4ikos19patricia_trees_impl4treeI1K1VSt8equal_toIS3_EE9transformESt10shared_ptrIS6_ERNS_8unary_opIS3_EE:2,--unwindset,_ZN4ikos19patricia_trees_impl4treeI1K1VSt8equal_toIS3_EE8iterator18look_for_next_leafESt10shared_ptrIS6_E:2
+//@check id=iterate fn=_ZNK4ikos13patricia_treeI1K1VSt8equal_toIS2_EE6lookupERKS1_ props=C19 tag=lookup unwind=5 backends=minisat,kissat first_timeout=600 timeout=900 timeout_thorough=2400 defs=SCN=SC_BUILD vary=NA:0-1 bounded="<=1 binding, keys < 8 (2 symbolic bindings: cbmc runs out of memory; see deep_iterate)" cbmc=--unwindset,_ZNK4ikos19patricia_trees_impl4nodeI1K1VSt8equal_toIS3_EE6lookupERKS2_:1,--unwindset,_ZNK4ikos19patricia_trees_impl4nodeI1K1VSt8equal_toIS3_EE4findERKS2_:1,--unwindset,_ZN4ikos19patricia_trees_impl4treeI1K1VSt8equal_toIS3_EE6insertESt10shared_ptrIS6_ERKS2_RKS3_RNS_9binary_opIS2_S3_EEb:2,--unwindset,_ZN4ikos19patricia_trees_impl4treeI1K1VSt8equal_toIS3_EE5mergeESt10shared_ptrIS6_ES8_RNS_9binary_opIS2_S3_EEb:2,--unwindset,_ZN4ikos19patricia_trees_impl4treeI1K1VSt8equal_toIS3_EE7compareESt10shared_ptrIS6_ES8_RNS_13partial_orderIS3_EEb:2,--unwindset,_ZN4ikos19patricia_trees_impl4treeI1K1VSt8equal_toIS3_EE6removeESt10shared_ptrIS6_ERKS2_:2,--unwindset,_ZN4ikos19patricia_trees_impl4treeI1K1VSt8equal_toIS3_EE9transformESt10shared_ptrIS6_ERNS_8unary_opIS3_EE:2,--unwindset,_ZN4ikos19patricia_trees_impl4treeI1K1VSt8equal_toIS3_EE8iterator18look_for_next_leafESt10shared_ptrIS6_E:2
 void h_iterate(void){ GIN(g_a, NA_LO, NA_HI); GHOSTG(uint64_t, g_q); GHOSTG(uint64_t, g_k);
   __CPROVER_assume(g_k < PT_KEYS);
   PT t; build(&t, &g_a, NA_HI); PTIter it;
@@ -187,13 +193,13 @@ void h_leq_top(void) LEQ_HARNESS(GIN(g_a, NA_LO, NA_HI), GIN(g_b, NB_LO, NB_HI),
 void h_leq_bot(void) LEQ_HARNESS(GIN(g_a, NA_LO, NA_HI), GIN(g_b, NB_LO, NB_HI), NA_HI, NB_HI)
 /* a tree against itself / against a copy that shares its root: yes in both modes (C04: yes on equal values) */
 /* BOUNDED */
-//@check id=leq_self fn=_ZNK4ikos13patricia_treeI1K1VSt8equal_toIS2_EE6lookupERKS1_ props=C19,C04 tag=lookup unwind=5 backends=minisat,kissat first_timeout=600 timeout=900 timeout_thorough=2400 defs=SCN=SC_BUILD vary=NA:1 vary_thorough=NA:0-1 bounded="<=2 bindings, keys < 8" cbmc=--unwindset,_ZNK4ikos19patricia_trees_impl4nodeI1K1VSt8equal_toIS3_EE6lookupERKS2_:1,--unwindset,_ZNK4ikos19patricia_trees_impl4nodeI1K1VSt8equal_toIS3_EE4findERKS2_:1,--unwindset,_ZN4ikos19patricia_trees_impl4treeI1K1VSt8equal_toIS3_EE6insertESt10shared_ptrIS6_ERKS2_RKS3_RNS_9binary_opIS2_S3_EEb:2,--unwindset,_ZN4ikos19patricia_trees_impl4treeI1K1VSt8equal_toIS3_EE5mergeESt10shared_ptrIS6_ES8_RNS_9binary_opIS2_S3_EEb:2,--unwindset,_ZN4ikos19patricia_trees_impl4treeI1K1VSt8equal_toIS3_EE7compareESt10shared_ptrIS6_ES8_RNS_13partial_orderIS3_EEb:2,--unwindset,_ZN4ikos19patricia_trees_impl4treeI1K1VSt8equal_toIS3_EE6removeESt10shared_ptrIS6_ERKS2_:2,--unwindset,_ZN4ikos19patricia_trees_impl4treeI1K1VSt8equal_toIS3_EE9transformESt10shared_ptrIS6_ERNS_8unary_opIS3_EE:2,--unwindset,_ZN4ikos19patricia_trees_impl4treeI1K1VSt8equal_toIS3_EE8iterator18look_for_next_leafESt10shared_ptrIS6_E:2
+//@check id=leq_self fn=_ZNK4ikos13patricia_treeI1K1VSt8equal_toIS2_EE6lookupERKS1_ props=C19,C04 tag=lookup unwind=5 backends=minisat,kissat first_timeout=600 timeout=900 timeout_thorough=2400 defs=SCN=SC_BUILD vary=NA:1 vary_thorough=NA:0-1 bounded="<=1 binding, keys < 8 (see deep_leq_self / deep_leq_copy for nested trees)" cbmc=--unwindset,_ZNK4ikos19patricia_trees_impl4nodeI1K1VSt8equal_toIS3_EE6lookupERKS2_:1,--unwindset,_ZNK4ikos19patricia_trees_impl4nodeI1K1VSt8equal_toIS3_EE4findERKS2_:1,--unwindset,_ZN4ikos19patricia_trees_impl4treeI1K1VSt8equal_toIS3_EE6insertESt10shared_ptrIS6_ERKS2_RKS3_RNS_9binary_opIS2_S3_EEb:2,--unwindset,_ZN4ikos19patricia_trees_impl4treeI1K1VSt8equal_toIS3_EE5mergeESt10shared_ptrIS6_ES8_RNS_9binary_opIS2_S3_EEb:2,--unwindset,_ZN4ikos19patricia_trees_impl4treeI1K1VSt8equal_toIS3_EE7compareESt10shared_ptrIS6_ES8_RNS_13partial_orderIS3_EEb:2,--unwindset,_ZN4ikos19patricia_trees_impl4treeI1K1VSt8equal_toIS3_EE6removeESt10shared_ptrIS6_ERKS2_:2,--unwindset,_ZN4ikos19patricia_trees_impl4treeI1K1VSt8equal_toIS3_EE9transformESt10shared_ptrIS6_ERNS_8unary_opIS3_EE:2,--unwindset,_ZN4ikos19patricia_trees_impl4treeI1K1VSt8equal_toIS3_EE8iterator18look_for_next_leafESt10shared_ptrIS6_E:2
 void h_leq_self(void){ GIN(g_a, NA_LO, NA_HI); GHOSTG(uint64_t, g_q); GHOSTG(uint64_t, g_k);
   PT ta; build(&ta, &g_a, NA_HI); LEPO po; le_po_new(&po, g_k & 1);
   __CPROVER_assert(PT_LEQ(&ta, &ta, (PORD *)&po) == 1, "a tree is included in itself");
   OBSERVE_X(&ta, "leq: operand unchanged"); REACH; }
 /* BOUNDED */
-//@check id=leq_copy fn=_ZNK4ikos13patricia_treeI1K1VSt8equal_toIS2_EE6lookupERKS1_ props=C19,C04 tag=lookup unwind=5 backends=minisat,kissat first_timeout=600 timeout=900 timeout_thorough=2400 defs=SCN=SC_BUILD vary=NA:1 vary_thorough=NA:0-1 bounded="<=2 bindings, keys < 8" cbmc=--unwindset,_ZNK4ikos19patricia_trees_impl4nodeI1K1VSt8equal_toIS3_EE6lookupERKS2_:1,--unwindset,_ZNK4ikos19patricia_trees_impl4nodeI1K1VSt8equal_toIS3_EE4findERKS2_:1,--unwindset,_ZN4ikos19patricia_trees_impl4treeI1K1VSt8equal_toIS3_EE6insertESt10shared_ptrIS6_ERKS2_RKS3_RNS_9binary_opIS2_S3_EEb:2,--unwindset,_ZN4ikos19patricia_trees_impl4treeI1K1VSt8equal_toIS3_EE5mergeESt10shared_ptrIS6_ES8_RNS_9binary_opIS2_S3_EEb:2,--unwindset,_ZN4ikos19patricia_trees_impl4treeI1K1VSt8equal_toIS3_EE7compareESt10shared_ptrIS6_ES8_RNS_13partial_orderIS3_EEb:2,--unwindset,_ZN4ikos19patricia_trees_impl4treeI1K1VSt8equal_toIS3_EE6removeESt10shared_ptrIS6_ERKS2_:2,--unwindset,_ZN4ikos19patricia_trees_impl4treeI1K1VSt8equal_toIS3_EE9transformESt10shared_ptrIS6_ERNS_8unary_opIS3_EE:2,--unwindset,_ZN4ikos19patricia_trees_impl4treeI1K1VSt8equal_toIS3_EE8iterator18look_for_next_leafESt10shared_ptrIS6_E:2
+//@check id=leq_copy fn=_ZNK4ikos13patricia_treeI1K1VSt8equal_toIS2_EE6lookupERKS1_ props=C19,C04 tag=lookup unwind=5 backends=minisat,kissat first_timeout=600 timeout=900 timeout_thorough=2400 defs=SCN=SC_BUILD vary=NA:1 vary_thorough=NA:0-1 bounded="<=1 binding, keys < 8 (see deep_leq_self / deep_leq_copy for nested trees)" cbmc=--unwindset,_ZNK4ikos19patricia_trees_impl4nodeI1K1VSt8equal_toIS3_EE6lookupERKS2_:1,--unwindset,_ZNK4ikos19patricia_trees_impl4nodeI1K1VSt8equal_toIS3_EE4findERKS2_:1,--unwindset,_ZN4ikos19patricia_trees_impl4treeI1K1VSt8equal_toIS3_EE6insertESt10shared_ptrIS6_ERKS2_RKS3_RNS_9binary_opIS2_S3_EEb:2,--unwindset,_ZN4ikos19patricia_trees_impl4treeI1K1VSt8equal_toIS3_EE5mergeESt10shared_ptrIS6_ES8_RNS_9binary_opIS2_S3_EEb:2,--unwindset,_ZN4ikos19patricia_trees_impl4treeI1K1VSt8equal_toIS3_EE7compareESt10shared_ptrIS6_ES8_RNS_13partial_orderIS3_EEb:2,--unwindset,_ZN4ikos19patricia_trees_impl4treeI1K1VSt8equal_toIS3_EE6removeESt10shared_ptrIS6_ERKS2_:2,--unwindset,_ZN4ikos19patricia_trees_impl4treeI1K1VSt8equal_toIS3_EE9transformESt10shared_ptrIS6_ERNS_8unary_opIS3_EE:2,--unwindset,_ZN4ikos19patricia_trees_impl4treeI1K1VSt8equal_toIS3_EE8iterator18look_for_next_leafESt10shared_ptrIS6_E:2
 void h_leq_copy(void){ GIN(g_a, NA_LO, NA_HI); GHOSTG(uint64_t, g_q); GHOSTG(uint64_t, g_k);
   PT ta, tc; build(&ta, &g_a, NA_HI); pt_copy(&tc, &ta); LEPO po; le_po_new(&po, g_k & 1);
   __CPROVER_assert(PT_LEQ(&ta, &tc, (PORD *)&po) == 1, "a tree is included in a copy of itself");
@@ -295,3 +301,37 @@ void h_deep_leq_copy(void){ GMASK(g_a, CT_A); GHOSTG(uint64_t, g_q); GHOSTG(uint
   PT ta, tc; build(&ta, &g_a, PT_NMAX); pt_copy(&tc, &ta); LEPO po; le_po_new(&po, g_k & 1);
   __CPROVER_assert(PT_LEQ(&ta, &tc, (PORD *)&po) == 1, "a tree is included in a copy of itself");
   OBSERVE_X(&tc, "the copy denotes the same map"); REACH; }
+
+/* ===================== UNBOUNDED: the leaf level =====================
+ * leaf::find / lookup / prefix / branching_bit neither recurse nor dispatch (K::index is a direct call), so they are
+ * proved by contract for ARBITRARY leaves and keys, no bound.  (The node level is not: node::find / lookup reach their
+ * children through a virtual call, and cbmc does not replace indirect calls by contracts.)  prefix() = the key's index
+ * and branching_bit() = 0 are the facts about leaves that the routing lemmas of unit ptkern (L0, L3) take as hypotheses. */
+typedef struct S_class_ikos__patricia_trees_impl__leaf LEAF;   /* f0 = tree { v-table }, f1 = _key, f2 = _value */
+#define LFK(x) _ZNK4ikos19patricia_trees_impl4leafI1K1VSt8equal_toIS3_EE##x
+//@check id=leaf_find fn=_ZNK4ikos19patricia_trees_impl4leafI1K1VSt8equal_toIS3_EE4findERKS2_ props=C19
+V *LFK(4findERKS2_)(LEAF *self, K *key)
+__CPROVER_requires(FRESH(leaf_find, self, sizeof(LEAF)) && FRESH(leaf_find, key, sizeof(K)))
+__CPROVER_assigns()
+__CPROVER_ensures(__CPROVER_return_value == (self->f1.f1 == key->f1 ? &self->f2 : (V *)0));
+void h_leaf_find(void){ IN(LEAF, l); IN(K, k); LFK(4findERKS2_)(&l, &k); REACH; }
+//@check id=leaf_lookup fn=_ZNK4ikos19patricia_trees_impl4leafI1K1VSt8equal_toIS3_EE6lookupERKS2_ props=C19
+void LFK(6lookupERKS2_)(OPT *ret, LEAF *self, K *key)
+__CPROVER_requires(FRESH(leaf_lookup, ret, sizeof(OPT)) && FRESH(leaf_lookup, self, sizeof(LEAF)) && FRESH(leaf_lookup, key, sizeof(K)))
+__CPROVER_assigns(*ret)
+__CPROVER_ensures(ret->f0.f0 == (self->f1.f1 == key->f1 ? 1 : 0))
+__CPROVER_ensures(!opt_some(ret) || opt_val(ret) == self->f2.f0);
+void h_leaf_lookup(void){ IN(LEAF, l); IN(K, k); OPT r; LFK(6lookupERKS2_)(&r, &l, &k); REACH; }
+//@check id=leaf_prefix fn=_ZNK4ikos19patricia_trees_impl4leafI1K1VSt8equal_toIS3_EE6prefixEv props=C19
+uint64_t LFK(6prefixEv)(LEAF *self)
+__CPROVER_requires(FRESH(leaf_prefix, self, sizeof(LEAF)))
+__CPROVER_assigns()
+__CPROVER_ensures(__CPROVER_return_value == self->f1.f1);
+uint64_t LFK(13branching_bitEv)(LEAF *self);
+unsigned char LFK(7is_leafEv)(LEAF *self);
+uint64_t LFK(4sizeEv)(LEAF *self);
+void h_leaf_prefix(void){ IN(LEAF, l); LFK(6prefixEv)(&l);
+  __CPROVER_assert(LFK(13branching_bitEv)(&l) == 0, "a leaf has branching bit 0");
+  __CPROVER_assert(LFK(7is_leafEv)(&l) == 1, "a leaf is a leaf");
+  __CPROVER_assert(LFK(4sizeEv)(&l) == 1, "a leaf has one binding");
+  REACH; }
